@@ -214,11 +214,14 @@ check_payload(const RPFrame *f)
 
     uint16_t crc = 0u;
 
+    /* Checksum what was actually received. For frames that carry a payload,
+     * payload_plausible() has made sure this is the announced block size; for
+     * the others the block size field does not describe the payload at all. */
     if (BIT_ISSET(f->header.options, RP_OPT_WORD_SIZE_16)) {
-        crc = ufw_buffer_crc16_arc_u16(f->payload.data, f->header.blocksize);
+        crc = ufw_buffer_crc16_arc_u16(f->payload.data, f->payload.size / 2u);
     } else {
 #ifdef WITH_UINT8_T
-        crc = ufw_buffer_crc16_arc(f->payload.data, f->header.blocksize);
+        crc = ufw_buffer_crc16_arc(f->payload.data, f->payload.size);
 #else
         return -EINVAL;
 #endif /* WITH_UINT8_T */
